@@ -90,6 +90,11 @@ def run(rep, tier, rng):
         perm = list(ks)
         rng.shuffle(perm)
         forms.append((("dict", list(zip(ks, perm))), {usable[a]: usable[b_] for a, b_ in zip(ks, perm)}))
+        # a mapping need not be a dict instance: a read-only view, a UserDict
+        import collections as _coll
+        import types as _types
+        forms.append((("dict", list(zip(ks, perm))), _types.MappingProxyType({usable[a]: usable[b_] for a, b_ in zip(ks, perm)})))
+        forms.append((("dict", list(zip(ks, vs))), _coll.UserDict({usable[a]: usable[b_] for a, b_ in zip(ks, vs)})))
         forms.append((("seq", ks), [usable[a] for a in ks]))
         forms.append((("seq", ks), tuple(usable[a] for a in ks)))
         forms.append((("seq", ks), {usable[a]: None for a in ks}.keys()))          # any iterable of keys, e.g. a dict view
@@ -254,6 +259,8 @@ def run(rep, tier, rng):
             if nkeys >= 2:
                 # history (accumulator memory only): key 0 latched, a pulse on input_reset, then the clean key 1
                 inputs["after-reset-pulse:clean-second-key"] = [SC * v for v in keyv[1]]
+                # history (winner-take-all only): the other key alone first, then a mixture in which the first key is clearly stronger
+                inputs["after-other-key:mixture-1.0-0.8"] = [SC * a + 8 * b_ for a, b_ in zip(keyv[0], keyv[1])]
             variants = list(CLASSES.items())
             # non-default strength of the lateral inhibition: a clean key still yields its paired output at its own strength
             variants += [("WTAAssocMem inhibit_scale=2.0", (spa.WTAAssocMem, {"threshold": 0.3, "inhibit_scale": 2.0})),
@@ -270,6 +277,8 @@ def run(rep, tier, rng):
                         continue        # accumulators integrate any positive evidence: not claimed
                     if iname.startswith("after-reset-pulse") and cname != "IAAssocMem":
                         continue
+                    if iname.startswith("after-other-key") and cname != "WTAAssocMem":
+                        continue
                     if cname == "ThresholdingAssocMem" and iname.startswith("mixture") and theta10 >= 6:
                         continue
                     for seed in seeds:
@@ -285,12 +294,15 @@ def run(rep, tier, rng):
                                         inp = nengo.Node(lambda t: first if t < 0.25 else (np.zeros(d) if t < 0.4 else second))
                                         rst = nengo.Node(lambda t: 1.0 if 0.25 <= t < 0.35 else 0.0)
                                         nengo.Connection(rst, am.input_reset, synapse=None)
+                                    elif iname.startswith("after-other-key"):
+                                        other, mix = np.array(keyv[1], float), np.array(x10, float) / SC
+                                        inp = nengo.Node(lambda t: other if t < 0.3 else mix)
                                     else:
                                         inp = nengo.Node(np.array(x10, float) / SC)
                                     nengo.Connection(inp, am.input, synapse=None)
                                     p = nengo.Probe(am.output, synapse=0.02)
                                 with nengo.Simulator(net, progress_bar=False) as s:
-                                    s.run(0.9 if iname.startswith("after-reset-pulse") else 0.5)
+                                    s.run(0.9 if iname.startswith("after-") else 0.5)
                                 return s.data[p][-1]
                             with warnings.catch_warnings():
                                 warnings.simplefilter("ignore")
